@@ -130,4 +130,459 @@ theorem noWriter_reach {s s' : U} (r : UReach s s') :
       obtain ⟨x', y'⟩ := c' x
       exact ⟨x', y'.trans y⟩
 
+/-! ### the protocol system: every step is a step of the unconstrained system -/
+
+theorem take_ne_nil {l : List Nat} {k : Nat} (h1 : 0 < k) (h2 : k ≤ l.length) : l.take k ≠ [] := by
+  intro e
+  have := congrArg List.length e
+  rw [List.length_take, List.length_nil] at this
+  omega
+
+theorem U.close_eq (u : U) :
+    (u.pInW = false → { u with pInW := false } = u) ∧ (u.cInR = false → { u with cInR := false } = u) ∧
+    (u.cOutW = false → { u with cOutW := false } = u) ∧ (u.cErrW = false → { u with cErrW := false } = u) := by
+  cases u; simp
+
+theorem GStep.refines {s s' : G} (hs : GStep s s') : UStep s.u s'.u ∨ s'.u = s.u := by
+  cases hs with
+  | pWrite k h1 h2 h3 h4 h5 h6 h7 =>
+    refine .inl (UStep.pWriteIn _ _ h3 h4 ?_ ?_)
+    · exact take_ne_nil (by omega) (by omega)
+    · simp; omega
+  | pWriteFail h1 h2 h3 h4 h5 => exact .inl (UStep.pWriteInBroken _ h4 h5)
+  | pWriteNoPipe => exact .inr rfl
+  | pClose h1 h2 =>
+    by_cases h : s.u.pInW = true
+    · exact .inl (UStep.pCloseIn _ h)
+    · exact .inr ((U.close_eq s.u).1 (by simpa using h))
+  | pReadOut k h1 h2 h3 h4 => exact .inl (UStep.pReadOut _ k h2 h3 h4)
+  | pEofOut h1 h2 h3 h4 h5 => exact .inl (UStep.pEofOut _ h2 h4 h5)
+  | pReadErr k h1 h2 h3 h4 => exact .inl (UStep.pReadErr _ k h2 h3 h4)
+  | pEofErr h1 h2 h3 h4 h5 => exact .inl (UStep.pEofErr _ h2 h4 h5)
+  | pJoin c h1 h2 h3 h4 h5 => exact .inl (UStep.pWaitExited _ c h4 h5)
+  | cReadIn n r k h1 h2 h3 h4 h5 h6 => exact .inl (UStep.cReadIn _ k h3 h4 h6)
+  | cReadInEof n r h1 h2 h3 h4 h5 h6 => exact .inl (UStep.cEofIn _ h3 h5 h6)
+  | cReadInSkip => exact .inr rfl
+  | cReadAll r k h1 h2 h3 h4 h5 => exact .inl (UStep.cReadIn _ k h3 h4 h5)
+  | cReadAllEof r h1 h2 h3 h4 h5 => exact .inl (UStep.cEofIn _ h3 h4 h5)
+  | cReadAllSkip => exact .inr rfl
+  | cWriteOut d r k h1 h2 h3 h4 h5 h6 h7 =>
+    refine .inl (UStep.cWriteOut _ _ h3 h4 ?_ ?_)
+    · exact take_ne_nil (by omega) (by omega)
+    · simp; omega
+  | cWriteOutDone => exact .inr rfl
+  | cWriteOutSkip => exact .inr rfl
+  | cSigOut d r h1 h2 h3 h4 h5 => exact .inl (UStep.cSigOut _ h1 h4 h5)
+  | cWriteErr d r k h1 h2 h3 h4 h5 h6 h7 =>
+    refine .inl (UStep.cWriteErr _ _ h3 h4 ?_ ?_)
+    · exact take_ne_nil (by omega) (by omega)
+    · simp; omega
+  | cWriteErrDone => exact .inr rfl
+  | cWriteErrSkip => exact .inr rfl
+  | cSigErr d r h1 h2 h3 h4 h5 => exact .inl (UStep.cSigErr _ h1 h4 h5)
+  | cCloseIn r h1 h2 =>
+    by_cases h : s.u.cInR = true
+    · exact .inl (UStep.cCloseIn _ h)
+    · exact .inr ((U.close_eq s.u).2.1 (by simpa using h))
+  | cCloseOut r h1 h2 =>
+    by_cases h : s.u.cOutW = true
+    · exact .inl (UStep.cCloseOut _ h)
+    · exact .inr ((U.close_eq s.u).2.2.1 (by simpa using h))
+  | cCloseErr r h1 h2 =>
+    by_cases h : s.u.cErrW = true
+    · exact .inl (UStep.cCloseErr _ h)
+    · exact .inr ((U.close_eq s.u).2.2.2 (by simpa using h))
+  | cExit h1 h2 => exact .inl (UStep.cExit _ _ h1)
+
+theorem GReach.refines {cap mask : Nat} {P : List Nat} {prog : List CAct} {code : Nat} {s : G}
+    (h : GReach (G.init cap mask P prog code) s) : UReach (U.init cap mask) s.u := by
+  induction h with
+  | init => exact .init
+  | step _ hs ih =>
+    rcases hs.refines with h | h
+    · exact .step ih h
+    · rw [h]; exact ih
+
+open Kernel (bit)
+
+
+/-! ### the protocol system: invariants -/
+
+structure GInvA (mask code : Nat) (s : G) : Prop where
+  code_eq : s.code = code
+  pOutR_eq : s.u.pOutR = bit mask 1
+  pErrR_eq : s.u.pErrR = bit mask 2
+  cOutW_red : s.u.cOutW = true → bit mask 1 = true
+  cErrW_red : s.u.cErrW = true → bit mask 2 = true
+  cInR_red : s.u.cInR = true → bit mask 4 = true
+  closed_in : s.pPhase ≠ .writing → s.u.pInW = false
+  open_in : s.pPhase = .writing → s.u.pInW = bit mask 4
+  sent_all : s.pPhase ≠ .writing → s.toSend = [] ∨ s.stopped = true
+  alive : s.u.child = .running ∨ (s.prog = [] ∧ s.u.child = .exited code)
+  not_reaped : s.pPhase ≠ .joined → s.u.reaped = none
+  joined : s.pPhase = .joined → s.u.reaped = some code ∧ s.u.child = .exited code ∧
+    (s.u.outEof = true ∨ s.u.pOutR = false) ∧ (s.u.errEof = true ∨ s.u.pErrR = false)
+
+theorem GInvA.init (cap mask : Nat) (P : List Nat) (prog : List CAct) (code : Nat) :
+    GInvA mask code (G.init cap mask P prog code) := by
+  constructor <;> simp [G.init, U.init]
+
+theorem GInvA.step {mask code : Nat} {s s' : G} (h : GInvA mask code s) (hs : GStep s s') : GInvA mask code s' := by
+  obtain ⟨h1, h2, h3, h4, h5, h6, h7, h8, h9, h10, h11, h12⟩ := h
+  cases hs <;> constructor <;> simp_all <;> grind
+
+@[simp] theorem take_append_drop_append (k : Nat) (d x : List Nat) : d.take k ++ (d.drop k ++ x) = d ++ x := by
+  rw [← List.append_assoc, List.take_append_drop]
+
+structure GInvB (mask : Nat) (P : List Nat) (prog0 : List CAct) (s : G) : Prop where
+  inB : s.u.sentIn ++ s.toSend = P
+  outB : s.u.sentOut ++ (if s.u.cOutW = true then outData s.prog else []) = (if bit mask 1 = true then outData prog0 else [])
+  errB : s.u.sentErr ++ (if s.u.cErrW = true then errData s.prog else []) = (if bit mask 2 = true then errData prog0 else [])
+  outBudget : s.u.cInR = true → s.u.inEof = false →
+    s.u.sentOut.length + outBytes (inputPhase s.prog) ≤ outBytes (inputPhase prog0)
+  errBudget : s.u.cInR = true → s.u.inEof = false →
+    s.u.sentErr.length + errBytes (inputPhase s.prog) ≤ errBytes (inputPhase prog0)
+
+theorem GInvB.init (cap mask : Nat) (P : List Nat) (prog : List CAct) (code : Nat) :
+    GInvB mask P prog (G.init cap mask P prog code) := by
+  constructor <;> first | rfl | simp [G.init, U.init]
+
+theorem GInvB.step {mask : Nat} {P : List Nat} {prog0 : List CAct} {s s' : G}
+    (h : GInvB mask P prog0 s) (ho : s.u.cOutW = true → s.u.pOutR = true) (he : s.u.cErrW = true → s.u.pErrR = true)
+    (hs : GStep s s') : GInvB mask P prog0 s' := by
+  obtain ⟨h1, h2, h3, h4, h5⟩ := h
+  cases hs <;> constructor <;> simp_all [outData, errData, inputPhase, outBytes, errBytes] <;> grind
+
+def GInvC (P : List Nat) (s : G) : Prop :=
+  (wantsAll s.prog = true ∧ s.u.cInR = true ∧ s.stopped = false) ∨ s.u.gotIn = P
+
+theorem GInvC.step {P : List Nat} {s s' : G} (h : GInvC P s)
+    (hfifo : s.u.sentIn = s.u.gotIn ++ s.u.inQ) (hinB : s.u.sentIn ++ s.toSend = P)
+    (hclosed : s.u.pInW = false → s.toSend = [] ∨ s.stopped = true)
+    (ho : s.u.cOutW = true → s.u.pOutR = true) (he : s.u.cErrW = true → s.u.pErrR = true)
+    (hs : GStep s s') : GInvC P s' := by
+  have hfull : s.u.gotIn = P → s.u.inQ = [] := by
+    intro e
+    have := congrArg List.length hinB
+    rw [hfifo, e] at this
+    simp only [List.length_append] at this
+    exact List.eq_nil_of_length_eq_zero (by omega)
+  unfold GInvC at *
+  cases hs <;> simp_all [wantsAll] <;> grind
+
+structure GInv (cap mask : Nat) (P : List Nat) (prog0 : List CAct) (code : Nat) (s : G) : Prop where
+  u : UInv cap s.u
+  a : GInvA mask code s
+  b : GInvB mask P prog0 s
+  c : bit mask 4 = true → wantsAll prog0 = true → GInvC P s
+
+theorem GInvA.writers {mask code : Nat} {s : G} (h : GInvA mask code s) :
+    (s.u.cOutW = true → s.u.pOutR = true) ∧ (s.u.cErrW = true → s.u.pErrR = true) :=
+  ⟨fun e => by rw [h.pOutR_eq]; exact h.cOutW_red e, fun e => by rw [h.pErrR_eq]; exact h.cErrW_red e⟩
+
+theorem GInv.init (cap mask : Nat) (P : List Nat) (prog : List CAct) (code : Nat) :
+    GInv cap mask P prog code (G.init cap mask P prog code) :=
+  ⟨UInv.init cap mask, GInvA.init cap mask P prog code, GInvB.init cap mask P prog code,
+    fun hm hw => .inl ⟨hw, hm, rfl⟩⟩
+
+theorem GInv.step {cap mask : Nat} {P : List Nat} {prog0 : List CAct} {code : Nat} {s s' : G}
+    (h : GInv cap mask P prog0 code s) (hs : GStep s s') : GInv cap mask P prog0 code s' := by
+  obtain ⟨hu, ha, hb, hc⟩ := h
+  obtain ⟨wo, we⟩ := ha.writers
+  refine ⟨?_, ha.step hs, hb.step wo we hs, fun hm hw => (hc hm hw).step hu.fifoIn hb.inB ?_ wo we hs⟩
+  · rcases hs.refines with r | r
+    · exact hu.step r
+    · rw [r]; exact hu
+  · intro hp
+    by_cases hw : s.pPhase = .writing
+    · have := ha.open_in hw
+      rw [hm, hp] at this; cases this
+    · exact ha.sent_all hw
+
+theorem GInv.reach {cap mask : Nat} {P : List Nat} {prog : List CAct} {code : Nat} {s : G}
+    (h : GReach (G.init cap mask P prog code) s) : GInv cap mask P prog code s := by
+  induction h with
+  | init => exact GInv.init cap mask P prog code
+  | step _ hs ih => exact ih.step hs
+
+/-- every step strictly decreases the measure: every run is finite -/
+theorem gstep_decreases {s s' : G} (hs : GStep s s') : s'.measure < s.measure := by
+  cases hs <;>
+    simp_all [G.measure, progCost, actCost, Kernel.pRank, Kernel.b2n, childRank, List.length_take, List.length_drop] <;>
+    omega
+
+theorem GReachN.reach {s0 s : G} {n : Nat} (h : GReachN s0 n s) : GReach s0 s := by
+  induction h with
+  | init => exact .init
+  | step _ hs ih => exact .step ih hs
+
+theorem GReachN.bound {s0 s : G} {n : Nat} (h : GReachN s0 n s) : n + s.measure ≤ s0.measure := by
+  induction h with
+  | init => simp
+  | step _ hs ih => have := gstep_decreases hs; omega
+
+theorem pos_of_ne_nil {l : List Nat} (h : l ≠ []) : 0 < l.length := by
+  cases l with
+  | nil => exact absurd rfl h
+  | cons _ _ => simp
+
+/-- the parent in phase writing: it can move, or its write is blocked on a full pipe whose read end the child holds -/
+theorem parent_writing {s : G} (hp : s.pPhase = .writing) :
+    (∃ s', GStep s s') ∨
+    (s.stopped = false ∧ s.toSend ≠ [] ∧ s.u.pInW = true ∧ s.u.cInR = true ∧ s.u.cap ≤ s.u.inQ.length) := by
+  by_cases hts : s.toSend = []
+  · exact .inl ⟨_, GStep.pClose s hp (.inl hts)⟩
+  · cases hst : s.stopped with
+    | true => exact .inl ⟨_, GStep.pClose s hp (.inr hst)⟩
+    | false =>
+      cases hw : s.u.pInW with
+      | false => exact .inl ⟨_, GStep.pWriteNoPipe s hp hst hts hw⟩
+      | true =>
+        cases hr : s.u.cInR with
+        | false => exact .inl ⟨_, GStep.pWriteFail s hp hst hts hw hr⟩
+        | true =>
+          by_cases hfull : s.u.inQ.length < s.u.cap
+          · exact .inl ⟨_, GStep.pWrite s 1 hp hst hw hr (by omega) (pos_of_ne_nil hts) (by omega)⟩
+          · exact .inr ⟨rfl, hts, rfl, rfl, by omega⟩
+
+/-- a blocked parent write is impossible when the payload fits the pipe -/
+theorem blocked_small {cap mask : Nat} {P : List Nat} {prog0 : List CAct} {code : Nat} {s : G}
+    (h : GInv cap mask P prog0 code s) (hP : P.length ≤ cap) (hts : s.toSend ≠ []) (hf : s.u.cap ≤ s.u.inQ.length) : False := by
+  have h1 := congrArg List.length h.b.inB
+  rw [h.u.fifoIn] at h1
+  simp only [List.length_append] at h1
+  have h2 := pos_of_ne_nil hts
+  have h3 := h.u.cap_eq
+  omega
+
+/-- the parent in phase draining, the child has released the stdout write end: the parent can move or is done with stdout -/
+theorem drain_out {s : G} (hp : s.pPhase = .draining) (hw : s.u.cOutW = false) :
+    (∃ s', GStep s s') ∨ (s.u.outEof = true ∨ s.u.pOutR = false) := by
+  cases hr : s.u.pOutR with
+  | false => exact .inr (.inr rfl)
+  | true =>
+    by_cases hq : s.u.outQ = []
+    · cases he : s.u.outEof with
+      | true => exact .inr (.inl rfl)
+      | false => exact .inl ⟨_, GStep.pEofOut s hp hr he hq hw⟩
+    · exact .inl ⟨_, GStep.pReadOut s 1 hp hr (by omega) (pos_of_ne_nil hq)⟩
+
+theorem drain_err {s : G} (hp : s.pPhase = .draining) (hw : s.u.cErrW = false) :
+    (∃ s', GStep s s') ∨ (s.u.errEof = true ∨ s.u.pErrR = false) := by
+  cases hr : s.u.pErrR with
+  | false => exact .inr (.inr rfl)
+  | true =>
+    by_cases hq : s.u.errQ = []
+    · cases he : s.u.errEof with
+      | true => exact .inr (.inl rfl)
+      | false => exact .inl ⟨_, GStep.pEofErr s hp hr he hq hw⟩
+    · exact .inl ⟨_, GStep.pReadErr s 1 hp hr (by omega) (pos_of_ne_nil hq)⟩
+
+/-- the hypothesis of the no-deadlock theorem: the payload fits the stdin pipe, or what the child writes in its
+    input phase fits the stdout and the stderr pipe -/
+def Fits (cap : Nat) (P : List Nat) (prog : List CAct) : Prop :=
+  P.length ≤ cap ∨ (outBytes (inputPhase prog) ≤ cap ∧ errBytes (inputPhase prog) ≤ cap)
+
+/-- the child reads (or waits for end-of-file on) an empty stdin pipe whose write end the parent holds: the parent can move -/
+theorem feed {cap mask : Nat} {P : List Nat} {prog0 : List CAct} {code : Nat} {s : G}
+    (h : GInv cap mask P prog0 code s) (hcap : 0 < cap) (hq : s.u.inQ = []) (hw : s.u.pInW = true) : ∃ s', GStep s s' := by
+  have hp : s.pPhase = .writing := by
+    by_cases e : s.pPhase = .writing
+    · exact e
+    · have := h.a.closed_in e; rw [hw] at this; cases this
+  rcases parent_writing hp with r | ⟨_, _, _, _, hf⟩
+  · exact r
+  · have := h.u.cap_eq
+    rw [hq] at hf; simp at hf; omega
+
+/-- the child's write is blocked on a full stdout pipe: the parent can move -/
+theorem unblock_out {cap mask : Nat} {P : List Nat} {prog0 : List CAct} {code : Nat} {s : G}
+    (h : GInv cap mask P prog0 code s) (hcap : 0 < cap) (hF : Fits cap P prog0) (hj : s.pPhase ≠ .joined)
+    {d : List Nat} {r : List CAct} (hprog : s.prog = .writeOut d :: r) (hd : d ≠ []) (hw : s.u.cOutW = true)
+    (hfull : s.u.cap ≤ s.u.outQ.length) : ∃ s', GStep s s' := by
+  have hc := h.u.cap_eq
+  have hr := h.a.writers.1 hw
+  cases hp : s.pPhase with
+  | joined => exact absurd hp hj
+  | draining => exact ⟨_, GStep.pReadOut s 1 hp hr (by omega) (by omega)⟩
+  | writing =>
+    rcases parent_writing hp with r | ⟨_, hts, hpw, hcr, hf⟩
+    · exact r
+    · rcases hF with hP | ⟨hO, _⟩
+      · exact (blocked_small h hP hts hf).elim
+      · have he : s.u.inEof = false := by
+          cases e : s.u.inEof with
+          | false => rfl
+          | true => have := (h.u.eofIn e).2; rw [hpw] at this; cases this
+        have hb := h.b.outBudget hcr he
+        rw [hprog] at hb
+        simp only [inputPhase, outBytes] at hb
+        have h1 := congrArg List.length h.u.fifoOut
+        simp only [List.length_append] at h1
+        have h2 := pos_of_ne_nil hd
+        omega
+
+theorem unblock_err {cap mask : Nat} {P : List Nat} {prog0 : List CAct} {code : Nat} {s : G}
+    (h : GInv cap mask P prog0 code s) (hcap : 0 < cap) (hF : Fits cap P prog0) (hj : s.pPhase ≠ .joined)
+    {d : List Nat} {r : List CAct} (hprog : s.prog = .writeErr d :: r) (hd : d ≠ []) (hw : s.u.cErrW = true)
+    (hfull : s.u.cap ≤ s.u.errQ.length) : ∃ s', GStep s s' := by
+  have hc := h.u.cap_eq
+  have hr := h.a.writers.2 hw
+  cases hp : s.pPhase with
+  | joined => exact absurd hp hj
+  | draining => exact ⟨_, GStep.pReadErr s 1 hp hr (by omega) (by omega)⟩
+  | writing =>
+    rcases parent_writing hp with r | ⟨_, hts, hpw, hcr, hf⟩
+    · exact r
+    · rcases hF with hP | ⟨_, hE⟩
+      · exact (blocked_small h hP hts hf).elim
+      · have he : s.u.inEof = false := by
+          cases e : s.u.inEof with
+          | false => rfl
+          | true => have := (h.u.eofIn e).2; rw [hpw] at this; cases this
+        have hb := h.b.errBudget hcr he
+        rw [hprog] at hb
+        simp only [inputPhase, errBytes] at hb
+        have h1 := congrArg List.length h.u.fifoErr
+        simp only [List.length_append] at h1
+        have h2 := pos_of_ne_nil hd
+        omega
+
+/-- no deadlock: as long as `join` has not returned, some process can take a step -/
+theorem gprogress {cap mask : Nat} {P : List Nat} {prog0 : List CAct} {code : Nat} {s : G}
+    (h : GInv cap mask P prog0 code s) (hcap : 0 < cap) (hF : Fits cap P prog0) (hj : s.pPhase ≠ .joined) :
+    ∃ s', GStep s s' := by
+  rcases h.a.alive with hrun | ⟨hnil, hex⟩
+  · cases hprog : s.prog with
+    | nil => exact ⟨_, GStep.cExit s hrun hprog⟩
+    | cons a r =>
+      cases a with
+      | closeIn => exact ⟨_, GStep.cCloseIn s r hrun hprog⟩
+      | closeOut => exact ⟨_, GStep.cCloseOut s r hrun hprog⟩
+      | closeErr => exact ⟨_, GStep.cCloseErr s r hrun hprog⟩
+      | readIn n =>
+        cases hr : s.u.cInR with
+        | false => exact ⟨_, GStep.cReadInSkip s n r hrun hprog (.inl hr)⟩
+        | true =>
+          by_cases hn : n = 0
+          · exact ⟨_, GStep.cReadInSkip s n r hrun hprog (.inr hn)⟩
+          · by_cases hq : s.u.inQ = []
+            · cases hw : s.u.pInW with
+              | false => exact ⟨_, GStep.cReadInEof s n r hrun hprog hr (by omega) hq hw⟩
+              | true => exact feed h hcap hq hw
+            · exact ⟨_, GStep.cReadIn s n r 1 hrun hprog hr (by omega) (by omega) (pos_of_ne_nil hq)⟩
+      | readAll =>
+        cases hr : s.u.cInR with
+        | false => exact ⟨_, GStep.cReadAllSkip s r hrun hprog hr⟩
+        | true =>
+          by_cases hq : s.u.inQ = []
+          · cases hw : s.u.pInW with
+            | false => exact ⟨_, GStep.cReadAllEof s r hrun hprog hr hq hw⟩
+            | true => exact feed h hcap hq hw
+          · exact ⟨_, GStep.cReadAll s r 1 hrun hprog hr (by omega) (pos_of_ne_nil hq)⟩
+      | writeOut d =>
+        cases hw : s.u.cOutW with
+        | false => exact ⟨_, GStep.cWriteOutSkip s d r hrun hprog hw⟩
+        | true =>
+          by_cases hd : d = []
+          · subst hd; exact ⟨_, GStep.cWriteOutDone s r hrun hprog⟩
+          · by_cases hfull : s.u.outQ.length < s.u.cap
+            · exact ⟨_, GStep.cWriteOut s d r 1 hrun hprog hw (h.a.writers.1 hw) (by omega) (pos_of_ne_nil hd) (by omega)⟩
+            · exact unblock_out h hcap hF hj hprog hd hw (by omega)
+      | writeErr d =>
+        cases hw : s.u.cErrW with
+        | false => exact ⟨_, GStep.cWriteErrSkip s d r hrun hprog hw⟩
+        | true =>
+          by_cases hd : d = []
+          · subst hd; exact ⟨_, GStep.cWriteErrDone s r hrun hprog⟩
+          · by_cases hfull : s.u.errQ.length < s.u.cap
+            · exact ⟨_, GStep.cWriteErr s d r 1 hrun hprog hw (h.a.writers.2 hw) (by omega) (pos_of_ne_nil hd) (by omega)⟩
+            · exact unblock_err h hcap hF hj hprog hd hw (by omega)
+  · obtain ⟨hci, hco, hce⟩ := h.u.dead (by rw [hex]; simp)
+    cases hp : s.pPhase with
+    | joined => exact absurd hp hj
+    | writing =>
+      rcases parent_writing hp with r | ⟨_, _, _, hcr, _⟩
+      · exact r
+      · rw [hci] at hcr; cases hcr
+    | draining =>
+      rcases drain_out hp hco with r | ho
+      · exact r
+      · rcases drain_err hp hce with r | he
+        · exact r
+        · exact ⟨_, GStep.pJoin s code hp ho he hex (h.a.not_reaped hj)⟩
+
+/-- what has arrived when `join` has returned -/
+theorem gdelivered {cap mask : Nat} {P : List Nat} {prog0 : List CAct} {code : Nat} {s : G}
+    (h : GInv cap mask P prog0 code s) (hj : s.pPhase = .joined) :
+    s.u.reaped = some code ∧ s.u.child = .exited code ∧
+    s.u.gotOut = (if bit mask 1 = true then outData prog0 else []) ∧
+    s.u.gotErr = (if bit mask 2 = true then errData prog0 else []) ∧
+    (bit mask 4 = true → wantsAll prog0 = true → s.u.gotIn = P) := by
+  obtain ⟨hr, hex, ho, he⟩ := h.a.joined hj
+  obtain ⟨hci, hco, hce⟩ := h.u.dead (by rw [hex]; simp)
+  have hob := h.b.outB
+  have heb := h.b.errB
+  rw [hco] at hob
+  rw [hce] at heb
+  simp only [Bool.false_eq_true, if_false, List.append_nil] at hob heb
+  refine ⟨hr, hex, ?_, ?_, fun hm hw => ?_⟩
+  · rcases ho with ho | ho
+    · have hq := (h.u.eofOut ho).1
+      have := h.u.fifoOut
+      rw [hq, List.append_nil] at this
+      rw [← this, hob]
+    · have hb : bit mask 1 = false := by rw [← h.a.pOutR_eq]; exact ho
+      rw [hb] at hob ⊢
+      simp only [Bool.false_eq_true, if_false] at hob ⊢
+      have := h.u.fifoOut
+      rw [hob] at this
+      exact (List.append_eq_nil_iff.mp this.symm).1
+  · rcases he with he | he
+    · have hq := (h.u.eofErr he).1
+      have := h.u.fifoErr
+      rw [hq, List.append_nil] at this
+      rw [← this, heb]
+    · have hb : bit mask 2 = false := by rw [← h.a.pErrR_eq]; exact he
+      rw [hb] at heb ⊢
+      simp only [Bool.false_eq_true, if_false] at heb ⊢
+      have := h.u.fifoErr
+      rw [heb] at this
+      exact (List.append_eq_nil_iff.mp this.symm).1
+  · rcases h.c hm hw with ⟨_, hc, _⟩ | hg
+    · rw [hci] at hc; cases hc
+    · exact hg
+
+/-- what the child has read is always a prefix of the payload -/
+theorem gprefix {cap mask : Nat} {P : List Nat} {prog0 : List CAct} {code : Nat} {s : G}
+    (h : GInv cap mask P prog0 code s) : s.u.gotIn ++ (s.u.inQ ++ s.toSend) = P := by
+  have := h.b.inB
+  rw [h.u.fifoIn, List.append_assoc] at this
+  exact this
+
+theorem G.init_measure (cap mask : Nat) (P : List Nat) (prog : List CAct) (code : Nat) :
+    (G.init cap mask P prog code).measure = 2 * P.length + progCost prog + 6 := by
+  simp [G.measure, G.init, U.init, Kernel.pRank, Kernel.b2n, childRank]
+
+/-- from every reachable state a state in which `join` has returned can be reached (by any maximal run) -/
+theorem exists_joined {cap mask : Nat} {P : List Nat} {prog : List CAct} {code : Nat} (hcap : 0 < cap)
+    (hF : Fits cap P prog) : ∀ (m : Nat) (s : G), s.measure ≤ m → GReach (G.init cap mask P prog code) s →
+    ∃ s', GReach (G.init cap mask P prog code) s' ∧ s'.pPhase = .joined := by
+  intro m
+  induction m with
+  | zero =>
+    intro s hm hr
+    by_cases hj : s.pPhase = .joined
+    · exact ⟨s, hr, hj⟩
+    · obtain ⟨s', hs⟩ := gprogress (GInv.reach hr) hcap hF hj
+      have := gstep_decreases hs
+      omega
+  | succ m ih =>
+    intro s hm hr
+    by_cases hj : s.pPhase = .joined
+    · exact ⟨s, hr, hj⟩
+    · obtain ⟨s', hs⟩ := gprogress (GInv.reach hr) hcap hF hj
+      have := gstep_decreases hs
+      exact ih s' (by omega) (.step hr hs)
+
 end Nstd.Args.Pipes
